@@ -536,7 +536,9 @@ def m_string_clone(I, st, inst, args):
 @model("<std::string::String as std::ops::Deref>::deref", "std::string::String::as_str", "<std::string::String as std::convert::AsRef<str>>::as_ref",
        "<std::string::String as std::borrow::Borrow<str>>::borrow", "std::string::String::as_mut_str",
        "<std::string::String as std::ops::DerefMut>::deref_mut", "<std::boxed::Box<str> as std::ops::Deref>::deref",
-       "<std::string::String as std::ops::Index<std::ops::RangeFull>>::index")
+       "<std::string::String as std::ops::Index<std::ops::RangeFull>>::index",
+       "std::str::<impl std::borrow::Borrow<str> for std::string::String>::borrow", "alloc::str::<impl std::borrow::Borrow<str> for std::string::String>::borrow",
+       "std::string::<impl std::convert::AsRef<str> for std::string::String>::as_ref")
 def m_string_deref(I, st, inst, args):
     return string_ref(I, st, args[0])
 
@@ -1373,3 +1375,32 @@ def m_map_get(I, st, inst, args):
             c = s2.alloc(m.data[idx][1])
             alts.append((s2, mk_option(Ptr(c))))
     return Forks(alts)
+
+
+@model("std::vec::partial_eq::<impl std::cmp::PartialEq* for std::vec::Vec<*>>::eq", "alloc::vec::partial_eq::<impl std::cmp::PartialEq* for std::vec::Vec<*>>::eq",
+       "<std::vec::Vec<*> as std::cmp::PartialEq*>::eq", aux="eq:0")
+def m_vec_eq(I, st, inst, args):
+    a = get_vec(I, st, args[0])
+    b = get_vec(I, st, args[1])
+    if len(a.elems) != len(b.elems):
+        return False
+    eqi = inst.aux.get("eq0")
+    if eqi is None:
+        raise Unsupported("Vec == without element equality")
+    einst = I.prog.insts[eqi]
+    states = [(st, True)]
+    for i in range(len(a.elems)):
+        nxt = []
+        for s, acc in states:
+            if acc is False:
+                nxt.append((s, False))
+                continue
+            pa = Ptr(args[0].cell, args[0].path + ("e", i))
+            pb = Ptr(args[1].cell, args[1].path + ("e", i))
+            for s2, r in I.call_sync(s, einst, [pa, pb]):
+                if isinstance(r, PanicExc):
+                    raise Unsupported("panic in element eq")
+                for s3, bv in _bool_alts(I, s2, r):
+                    nxt.append((s3, bool(bv) and acc))
+        states = nxt
+    return Forks(states)
